@@ -8,7 +8,7 @@ EXTENDS ArrayTree, ArraySeq, Json
 
 CONSTANTS Sizes,      \* value sizes to insert (some above the inline limit)
           MaxElems,   \* bound on the number of elements
-          EmitEdges,
+          EmitEdges, EmitOneIn,
           WithReads,  \* also explore Get and the rejected (out-of-range) requests
           AllowPop,   \* explore PopIterate
           GrowUntil,  \* simulation walks: only inserts / overwrites before this step ...
@@ -26,7 +26,8 @@ VARIABLES tree, seq, nextId, hist, res,
 mvars == <<tree, seq, nextId, hist, res, ctree, cseq>>
 
 Elem(vsz) == [id |-> nextId, vsz |-> vsz]
-Emit(h) == IF EmitEdges THEN PrintT(ToJson(h)) ELSE TRUE
+\* EmitOneIn > 1: print only a random sample of the explored transitions (the value of the conjunct is TRUE either way)
+Emit(h) == IF EmitEdges /\ (EmitOneIn <= 1 \/ RandomElement(1..EmitOneIn) = 1) THEN PrintT(ToJson(h)) ELSE TRUE
 Step(o) == hist' = Append(hist, o) /\ Emit(hist')
 
 NoTree0 == [k |-> "none"]
